@@ -99,6 +99,9 @@ def case_strategy(draw, big=False):
                      gen.r6(draw(st.floats(0, 2)) * lam)]
             pt.append({'kind': kind, 'key': float(k0 + 40 + i), 'v': v, 'tag': draw(st.sampled_from(tagsl))})
     case['pertag'] = pt
+    # the order of the options on the command line is the user's: tagged before untagged ones or after them (the sort
+    # keys decide the order of application)
+    case['pertag_first'] = draw(st.booleans())
     case['dirs'] = [[gen.r6(draw(st.floats(1, 85 if ground else 179))), gen.r6(draw(st.floats(0, 360)))] for _ in range(5)]
     return case
 
@@ -287,7 +290,7 @@ def check(case):
     # ---- (b) options vs coordinates (wires only)
     if all(o['type'] == 'wire' for o in case['objs']):
         opt = copy.deepcopy(mv)
-        opt['xforms'] = list(mv['xforms']) + pertag
+        opt['xforms'] = (pertag + list(mv['xforms'])) if case.get('pertag_first') else (list(mv['xforms']) + pertag)
         if pertag and scale is not None:
             # a second, tagged scale exercises "scaling last"
             pass
